@@ -121,6 +121,21 @@ def native_shift(sizes, rng):
     return bad
 
 
+def native_large_shifts(rng):
+    """single-precision traces shifted by many samples (half the window and more): still the circular roll to single-precision accuracy"""
+    bad = []
+    for n in (1500, 2048):
+        x = np.stack([_band_limited(n, rng) for _ in range(4)]).astype(np.float32)
+        x /= np.abs(x).max()
+        for sh in (n // 2, -(n // 2) + 3, 700, np.array([n // 2, -600, 1023, 5])):
+            y = F.fshift(x.copy(), sh, axis=-1)
+            want = np.stack([np.roll(x[i], int(np.atleast_1d(sh)[i % np.atleast_1d(sh).size])) for i in range(4)])
+            err = float(np.max(np.abs(y - want)))
+            if y.dtype != np.float32 or err > 1e-5:
+                bad.append(("float32 traces, large integer shift != roll", n, np.atleast_1d(sh).tolist(), err))
+    return bad
+
+
 def native_many_traces(rng):
     """each trace its own shift, for trace counts that are / are not multiples of 64 (1, 63..65, 100, 200, 384, 385 traces), both axes, float32/64"""
     bad = []
@@ -165,7 +180,7 @@ def native_estimation(rng, amps, lengths=(121, 82, 90, 100, 101, 128, 66)):
 
 
 @bounded(PROPERTY, "native_shift_theorem", bound="full impulse basis for n in 2..48 + {64, 97, 127, 128, 243, 251, 256} (thorough: 2..256 + primes to 2048), both axes, float32/float64, integer shifts incl. 0 and -(n-1), "
-         "composition, analytic band-limited delay, per-trace shifts on both axes (3 traces; and 1, 63, 64, 65, 100, 200, 384, 385 traces of 48 samples), alternating axes with the same length (call history); delay estimation for amplitudes 1, 1e-3, 8e-5 x waveform lengths {121, 82, 90, 100, 101, 128, 66} (odd, 0 and 2 mod 4)",
+         "composition, analytic band-limited delay, per-trace shifts on both axes (3 traces; and 1, 63, 64, 65, 100, 200, 384, 385 traces of 48 samples), alternating axes with the same length (call history); float32 traces of 1500 / 2048 samples shifted by half a window and more; delay estimation for amplitudes 1, 1e-3, 8e-5 x waveform lengths {121, 82, 90, 100, 101, 128, 66} (odd, 0 and 2 mod 4)",
          clause="integer shift == roll, zero shift == identity, shifts add up, fractional delay, delay estimation")
 def b_native(B):
     rng = np.random.default_rng(B.seed)
@@ -185,6 +200,8 @@ def b_native(B):
     B.case("alternating_axes_same_length", bool(ok), detail="results depend on earlier calls with another axis")
     bad = native_many_traces(rng)
     B.case("per_trace_shifts_many_traces", not bad, detail=bad[:6])
+    bad = native_large_shifts(rng)
+    B.case("float32_large_integer_shifts", not bad, detail=bad[:6])
     bad = native_estimation(rng, [1.0, 1e-3, 8e-5])
     B.case("delay_estimation", not bad, detail=bad[:6])
 
@@ -228,6 +245,47 @@ def h_corrmax(H):
         it.ctx.oblige("corrmax.moves_the_second_copy", z3.BoolVal(ok), "post")
         if ok:
             it.ctx.oblige("corrmax.moved_back_by_the_estimate", term(seen["fshift"][1]) == -term(shift), "post")
+    S.explore(body)
+
+
+def replay_parabolic_vertex(vals, oid):
+    """native: exact parabolas with the maximum at every position (1-D and 2-D): interior maxima are interpolated to the vertex, maxima on the first / last sample returned as they are"""
+    bad = []
+    for ns in (3, 4, 8, 33):
+        for imax in range(ns):
+            for frac in (-0.3, 0.0, 0.25, 0.45):
+                v = imax + (frac if 0 < imax < ns - 1 else 0.0)
+                x = 5.0 - 0.7 * (np.arange(ns) - v) ** 2
+                for arr in (x, np.vstack([x, x[::-1].copy() if False else x])):
+                    ip, mx = U.parabolic_max(arr)
+                    ip, mx = np.atleast_1d(ip)[0], np.atleast_1d(mx)[0]
+                    if abs(ip - v) > 1e-9 or abs(mx - 5.0) > 1e-9:
+                        bad.append({"ns": ns, "maximum_at_sample": imax, "true_vertex": v, "returned_position": float(ip), "returned_value": float(mx), "ndim": arr.ndim})
+    return {"failed": bool(bad), "cases": bad[:4]}
+
+
+@harness(PROPERTY, "parabolic_max_vertex", functions=["ibldsp.utils:parabolic_max"], replay=replay_parabolic_vertex,
+         clause="estimating the delay ... to within a few hundredths of a sample: a maximum on any interior sample (the second and the next-to-last included) is interpolated with its two neighbours, "
+                "a maximum on the first or last sample is returned as it is")
+def h_parabolic_vertex(H):
+    S = H.session("parabolic.vertex")
+
+    def body(it):
+        ns = z3.Int("ns")
+        it.ctx.assume(ns >= 3)
+        x = A.fresh_array("x", "float64", (ns,))
+        ipeak, maxi = run_function(it, U.parabolic_max, [x])
+        am = [r for r in getattr(it.ctx, "reduce_log", []) if r["name"] == "argmax"]
+        if len(am) != 1:
+            raise Unsupported("cannot identify the argmax of parabolic_max")
+        imax = am[0]["out"]()
+        H.input(ns=ns, imax=imax)
+        ip, mx = term(ipeak), term(maxi)
+        xm, x0, xp = x.read((imax - 1,)), x.read((imax,)), x.read((imax + 1,))
+        curv = xm - 2 * x0 + xp
+        it.ctx.oblige("parabolic_max.edges_returned_as_they_are", z3.Implies(z3.Or(imax == 0, imax == ns - 1), z3.And(ip == z3.ToReal(imax), mx == x0)), "post", assume=False)
+        it.ctx.oblige("parabolic_max.interior_interpolated", z3.Implies(z3.And(imax >= 1, imax <= ns - 2, curv != 0), ip * (2 * curv) == z3.ToReal(imax) * (2 * curv) + (xm - xp)), "post",
+                      "for a maximum on samples 1 .. ns-2 the position is imax + (x[imax-1] - x[imax+1]) / (2 (x[imax-1] - 2 x[imax] + x[imax+1])): the vertex of the parabola through the three samples", assume=False)
     S.explore(body)
 
 
